@@ -215,6 +215,11 @@ PRODUCTS = ('Elec', 'Heat', 'Cooling', 'Carbon')
 
 
 def check_b3(ctx, fn: FuncInfo, tag: str) -> None:
+    # read on the canonical form: a local bound once to an attribute path is that path, and a loop over a literal table of
+    # (price model, start, end, ...) rows is its rows written out
+    import dataclasses
+    from gxstat.inline import canonical_function, unroll_literal_loops
+    fn = dataclasses.replace(fn, node=unroll_literal_loops(canonical_function(fn.node, unnest=False)))
     rel = fn.module.rel
     L = 'model.surfaceplant.plant_lifetime.value'
     n = 0
@@ -264,8 +269,9 @@ def check_b3(ctx, fn: FuncInfo, tag: str) -> None:
                         and x.targets[0].slice.lower is None and isinstance(x.targets[0].slice.upper, ast.Constant) and x.targets[0].slice.upper.value == 0 \
                         and x.targets[0].slice.step is None:
                     slices.append((top_st, x))
-        ctx.require(slices and len({id(t) for t, _ in slices}) == 1, f'{tag}: construction-year padding loop not found at top level')
-        pad = slices[0][0]
+        ctx.require(slices and (len({id(t) for t, _ in slices}) == 1 or all(t is x for t, x in slices)),
+                    f'{tag}: construction-year padding loop not found at top level')
+        pad = slices[-1][0]          # (ordering checks below are relative to the last padding statement)
         series = []
         vals = set()
         for top_st, x in slices:
